@@ -98,6 +98,17 @@ func (w *pworld) tasks() bool {
 
 // drain: the peer reads some of what is waiting, then the loop gets its writable event
 func (w *pworld) drain(p *stepper.Peer, max int) bool {
+	isClient := false
+	for i, c := range w.s.Clients {
+		if c == p {
+			isClient = true
+			w.quietRecord(sx.L(sx.I(8), sx.I(0), sx.I(i), sx.I(max)))
+		}
+	}
+	if !isClient {
+		a, k := w.backendName(p)
+		w.quietRecord(sx.L(sx.I(8), sx.I(1), sx.S(a), sx.I(k), sx.I(max)))
+	}
 	w.s.DrainSome(p, max)
 	if !p.EOF && w.s.L.IsOpen(p.ProxyFd) {
 		return guard(func() { w.s.L.Writable(p.ProxyFd) })
@@ -155,6 +166,7 @@ func runPressure(seed uint64, idx int) (in sx.V, out sx.V, tags []string) {
 	if err != nil {
 		return sx.L(), sx.L(sx.S("setup-error")), nil
 	}
+	w0.wcap = wcap
 	w := &pworld{world: w0, r: r, parsed: map[*stepper.Peer]int{}}
 	defer func() {
 		if !loopWedged {
@@ -259,10 +271,12 @@ func runPressure(seed uint64, idx int) (in sx.V, out sx.V, tags []string) {
 		peers := append(append([]*stepper.Peer{}, w.s.Clients...), w.s.Backends...)
 		for _, p := range peers {
 			before := len(p.Got)
-			for w.s.DrainSome(p, 1<<16) > 0 {
-			}
-			if !p.EOF && w.s.L.IsOpen(p.ProxyFd) && ok {
-				ok = guard(func() { w.s.L.Writable(p.ProxyFd) })
+			for ok {
+				n0 := len(p.Got)
+				ok = w.drain(p, 1<<16)
+				if len(p.Got) == n0 {
+					break
+				}
 			}
 			if len(p.Got) != before {
 				moved = true
